@@ -51,6 +51,23 @@ claimed=sys.argv[1:] if len(sys.argv)>1 else sorted(C)
 extra=json.load(open('/verif/manifest_extra.json')) if __import__('os').path.exists('/verif/manifest_extra.json') else {}
 C.update({k:tuple(v) for k,v in extra.get('checks',{}).items()})
 claimed=sorted(set(claimed)|set(extra.get('claimed',[])))
+# round-7 additions to the level texts (families added after the seventh mutation round; DESIGN section 5b / 12)
+R7={
+ "C01":" Since round 7 also: short sentences, E1 and short chains on documents whose containers have 15-257 elements or members, and 4608 predicates two and three productions deep in 11 contexts.",
+ "C02":" Since round 7 also: about 700 magnitude thresholds (2^p and 10^k neighbourhoods, integer and float spellings) through the numeric builtins, strings of 7-257 characters with one non-ASCII character at every position, prefix-related strings, already sorted long arrays with displaced keys, every array size 6-70.",
+ "C05":" Since round 7 also: re-entrant calls (every call form inside the expression reference of every expref-taking builtin, two levels deep).",
+ "C06":" Since round 7 also: on a runtime lacking exactly one builtin, and on one with one custom function more, the name is called in 14 positions including the expression references of map / sort_by / max_by / min_by.",
+ "C07":" Since round 7 every (length, start, stop, step) is also taken as a continued projection (field, multi-select hash, pipe into length / index).",
+ "C08":" Since round 7 the nesting ladder sends every accepted text through all conversion paths and the same shapes, built in memory up to depth 500, through the paths that take a value.",
+ "C10":" Since round 7 also: mixed presentations (literal on one side, document node on the other) and the comparison as a filter predicate, each required to agree with 'l OP r'; the pool includes magnitude thresholds and containers / strings of 15-65 elements differing in one place.",
+ "C11":" Since round 7 also: documents with a null before the elements that yield something, medium-size documents, and 4608 predicates two and three productions deep as parts.",
+ "C13":" (19 expressions since round 7: a multi-select of constants, two calls of one builtin failing at different argument positions.)",
+ "C17":" Since round 7 also: about 165 magnitude thresholds as f64 / &f64 / f32 and inside Values, and a nesting ladder of documents built in memory (15 depths across the JSON reader's limit).",
+ "C18":" Since round 7 the quick tier includes expressions whose result is an expression reference.",
+}
+for k,add in R7.items():
+    if k in C:
+        t=list(C[k]); t[2]=t[2]+add; C[k]=tuple(t)
 checks=[]
 for cid in claimed:
     tech,ref,text,note=C[cid]
